@@ -682,6 +682,9 @@ impl Gen {
     }
 
     fn ttl(&mut self) -> u32 {
+        if self.flavor == "cfg" {
+            return 0; // the clock runs in real time in this profile
+        }
         let timey = self.flavor == "ttl" || self.flavor == "flush";
         let r = self.rng.below(100);
         if !timey && r < 60 {
@@ -898,7 +901,7 @@ impl Gen {
         self.steps_left -= 1;
         let fl = self.flavor.clone();
         let timey = fl == "ttl" || fl == "flush";
-        if self.rng.chance(if timey { 30 } else { 6 }, 100) {
+        if fl != "cfg" && self.rng.chance(if timey { 30 } else { 6 }, 100) {
             self.count("tick");
             let d = *self.rng.pick(&[1u64, 1, 1, 2, 3, 4, 5, 10, 2592000, 0]);
             self.pending_dump = true;
@@ -907,7 +910,8 @@ impl Gen {
         let nreq = 1 + if self.rng.chance(1, 4) { self.rng.below(4) as usize } else { 0 };
         let mut bytes = Vec::new();
         for _ in 0..nreq {
-            let bad = if fl == "malformed" { 40 } else { 2 };
+            // the configuration profile delimits exchanges with a sentinel request: whole frames only
+            let bad = if fl == "malformed" { 40 } else if fl == "cfg" { 0 } else { 2 };
             if self.rng.chance(bad, 100) {
                 bytes.extend_from_slice(&self.malformed());
             } else {
@@ -915,12 +919,12 @@ impl Gen {
             }
         }
         self.pending_dump = true;
-        if self.rng.chance(1, 30) {
+        if fl != "cfg" && self.rng.chance(1, 30) {
             self.count("eof");
             self.queue.push_back(Ev::Eof(self.conn));
         }
         let cutty = fl == "cuts" || fl == "malformed";
-        if self.rng.chance(if cutty { 70 } else { 10 }, 100) && bytes.len() > 1 {
+        if fl != "cfg" && self.rng.chance(if cutty { 70 } else { 10 }, 100) && bytes.len() > 1 {
             // deliver the bytes in several reads
             self.count("cut_chunk");
             let ncuts = 1 + self.rng.below(3) as usize;
